@@ -46,7 +46,7 @@ CHECKS = {
         note=(TB_COMMON + "Translator trusted (symbolic execution of the __init__ bodies; energy bookkeeping attributes dropped; quantizer conversion convert_qkeras_quantizer and get_min_max_exp tied by K). Value sets of the qtools types (QTools/Types.v) are my reading of the type fields: fixed = code*2^-(bits-sign-int_bits) "
               "two's complement; po2 = +-2^e within get_exp's range capped by max_value, plus 0 for gate outputs; ternary/binary by kind. "
               "np.log2/math.ceil are modelled by exact integer functions."),
-        technique="Coq proof over the type rules; the rules are REGENERATED from multiplier_impl.py / multiplier_factory.py on every run (tools/translate/qtoolsops.py) and link lemmas (generated = model, all operands) are re-proved; + exhaustive differential correspondence + in-Coq brute force (vm_compute)"),
+        technique="Coq proof over the type rules; the rules (and get_exp of quantizer_impl.py) are REGENERATED from multiplier_impl.py / multiplier_factory.py on every run (tools/translate/qtoolsops.py) and link lemmas (generated = model, all operands) are re-proved; + exhaustive differential correspondence + in-Coq brute force (vm_compute)"),
     "C17": dict(
         category="proof",
         text=("Coq theorems (Properties/C17.v): for every N >= 1 the fixed-point accumulator holds any sum of N (+bias) multiplier-output "
@@ -55,7 +55,7 @@ CHECKS = {
               "exponent and refuted at it; merge Add/Maximum are refuted with witnesses (known findings). Rules compared field by field with "
               "AccumulatorFactory / IAdder / MergeFactory over the operand lattice, kernel shapes up to N=2^20."),
         design_ref="DESIGN.md section 5 C17, section 10",
-        note=(TB_COMMON + "Translator trusted (symbolic execution of the __init__ bodies; energy bookkeeping attributes dropped; get_min_max_exp is a model primitive tied by K). Same value-set reading as C16. np.ceil(np.log2(n)) is compared with Z.log2_up at 2^k, 2^k+-1 (k<=20) on every run."),
+        note=(TB_COMMON + "Translator trusted (symbolic execution of the __init__ bodies; energy bookkeeping attributes dropped; get_exp / get_min_max_exp is translated too: link_get_exp). Same value-set reading as C16. np.ceil(np.log2(n)) is compared with Z.log2_up at 2^k, 2^k+-1 (k<=20) on every run."),
         technique="Coq proof (induction over operand lists); accumulator / adder rules REGENERATED from accumulator_impl.py, adder_impl.py, adder_factory.py on every run with re-proved link lemmas; + exhaustive differential correspondence + in-Coq brute force"),
     "C03": dict(
         category="proof",
@@ -65,11 +65,14 @@ CHECKS = {
               "(from a proved specification of floor(log2) on rationals), a power-of-two max_value is never exceeded, the map is monotone on "
               "each sign and idempotent in 'rnd' mode; floor-mode idempotence and the leaky min() are refuted with witnesses. The model is "
               "compared with the implementation at every exponent breakpoint +-ulps, clamp edges, 0, eps, denormals and huge inputs through a "
-              "float32-faithful model of the final straight-through sum."),
+              "float32-faithful model of the final straight-through sum. The exponent interval itself is REGENERATED on every run from "
+              "_need_exponent_sign_bit_check, _get_min_max_exponents and the two constructors (tools/translate/po2gen.py -> coq/gen/Po2Gen.v); "
+              "Link/Po2Link.v re-proves that it is the interval of the model for all bits / max_value, and that quadratic_approximation lowers the "
+              "maximum to the largest even exponent; the generated functions are evaluated in Coq against the _min_exp/_max_exp the constructors set."),
         design_ref="DESIGN.md section 5 C03, section 10",
         note=(TB_COMMON + "float32 log is an oracle: the implementation's exponent must lie between the exact exponents of x(1-2^-18) and "
               "x(1+2^-18); breakpoint shifts below that are invisible. tf.pow(2, integer) assumed exact (any inexactness shows as a mismatch)."),
-        technique="Coq proof over an exact rational model (floor-log2 specification) + differential correspondence with a tolerance band for float32 log"),
+        technique="Coq proof over an exact rational model (floor-log2 specification); exponent interval REGENERATED from quantizers.py on every run with re-proved link lemmas; + differential correspondence with a tolerance band for float32 log"),
     "C07": dict(
         category="proof",
         text=("Coq theorems (Properties/C07.v): both return expressions (STE and non-STE) equal surrogate + f*(quantized - surrogate) for "
@@ -136,7 +139,10 @@ CHECKS = {
               "brute-force loop nests and the Coq formulas, Keras output extents vs the Coq extent functions; energy_estimate on synthetic layer "
               "maps and on the real QTools(model).pe() pipeline: op_cost and the inputs / outputs / parameters entries vs an independent "
               "reference of the documented placement functions (dram / sram / fixed, rd_wr_on_io, min_sram_size), totals by exact rational "
-              "re-summation in Coq."),
+              "re-summation in Coq. get_operation_count (with is_merge_layers / is_shape_alternation_layers) is REGENERATED on every run "
+              "(tools/translate/opcountgen.py -> coq/gen/OpCountGen.v); Link/OpCountLink.v re-proves for every class of every dispatch arm and all "
+              "dimensions that it is the model formula, so the loop-nest theorems are stated about the code as it is now (C19_code_*); the "
+              "generated function is also evaluated in Coq on every sampled layer and compared with the implementation's count."),
         design_ref="DESIGN.md section 5 C19, section 10",
         note=(TB_COMMON + "Energy polynomials and log2 are float64 functions of qenergy; entries are compared with an independent float64 "
               "recomputation (a test), sums exactly. QTools(model) runs under the four accessor shims described for C18."),
@@ -269,7 +275,10 @@ CHECKS = {
               "tuner on generated references x limits x layer_indexes x configurations, ALL assignments for small spaces; the q_dict handed to "
               "model_quantize is compared with the Coq select model and judged directly against the limits; delta() signs / order and "
               "compute_model_size are compared with the executable models; two directed cases (role words in layer names, two separable layers under "
-              "different limits), filter-scaling runs with exception patterns, and a comparison of the quantizers the built trial model really carries with the tuner's choices. Four genuine defects repaired."),
+              "different limits), filter-scaling runs with exception patterns, and a comparison of the quantizers the built trial model really carries with the tuner's choices. Four genuine defects repaired. "
+              "_adjust_limit (AutoQ/Limits.v): a short per-class limit list is padded role by role from the default (3- or 4-element, the recurrent entry skipped for "
+              "non-recurrent classes), complete lists are untouched, the one-slice padding is refuted; every adjusted list of the runs is compared with an independent "
+              "role-by-role reference and with the Coq pad_limit."),
         design_ref="DESIGN.md section 5 C20, section 10.4, 10.8",
         note=(TB_COMMON + "The delta theorems use Coq's Reals: the standard library's real-number axioms (ClassicalDedekindReals.sig_forall_dec, "
               "sig_not_dec, FunctionalExtensionality.functional_extensionality_dep, Classical_Prop.classic) are the only assumptions, as Print "
